@@ -171,3 +171,18 @@ def limb_number(rng, max_limbs=8):
     s = "".join(str(x).zfill(b) for x in limbs).lstrip("0")
     lead = rng.choice(["", "", str(rng.randint(1, 9)), str(rng.randrange(1, top))])
     return (lead + s) if (lead + s) else "0"
+
+
+def as_layout(acc, layout):
+    """The same graph in another array representation (values unchanged)."""
+    if layout == "F":
+        return np.asfortranarray(acc)                 # column-major memory
+    if layout == "strided":
+        wide = np.full((acc.shape[0], 8), -1, dtype=acc.dtype)
+        wide[:, ::2] = acc
+        return wide[:, ::2]                           # a non-contiguous view of a wider table
+    if layout == "i32" or (layout == "i16" and acc.max() >= 2 ** 15):
+        return acc.astype(np.int32)
+    if layout == "i16":
+        return acc.astype(np.int16)
+    return acc
